@@ -59,6 +59,9 @@ CHECKS.update({
 })
 
 CHECKS.update({
+ "C18": dict(level="model_checking", ref="DESIGN.md 4 C18",
+  text="bounded model checking of the real Tailer (New, AddPattern, the pattern poll goroutines, doPatternGlob, Ignore, TailPath, the forwarding goroutines) and the real file streams over the model file system, with two overlapping glob patterns and an ignore expression: every history of 2 edits over a universe of five fixed names plus one file whose name is 1..4 (thorough 5) symbolic bytes, each edit followed by a pattern poll and a stream poll; then the tailer's streams are exactly the existing regular files that the property's sentence (written over the name's bytes) makes eligible, and a line appended to each arrives exactly once",
+  note="filepath.Glob lists the model directory and asks the real filepath.Match (interpreted from its source) about every name; url.Parse on a symbolic path is an engine model (no scheme, control character = error, path ends at the first ? or #, escapes excluded: names with %% are outside); the ignore expression is decided on the symbolic name for anchored literals; goroutines under the deterministic scheduler, settled after each wake-up"),
  "C20": dict(level="model_checking", ref="DESIGN.md 4 C20",
   text="bounded model checking of one reload of a running program in the real runtime (runtime.New's dispatcher goroutine, CompileAndRun, the VM goroutines, the real store) with lines sent on the real channel: the next line arrives at a solver-chosen point among the points at which the reloading goroutine releases a runtime or store lock, or after the reload, and a VM that has received a line may be held back before it processes it; every line is counted by exactly one version, old before new, a kept declaration shows every line's effect in the store (a counter counts every line, a gauge ends with the last line's value), the replaced version stops, and closing the input stops everything",
   note="interleaving is explored for the reloading goroutine only, at its lock-release points (handleMu, programErrorMu, insertMu, searchMu); dispatcher and VMs run to quiescence after each line except for up to 1 (thorough 2) hold-backs of a VM at the entry of ProcessLogLine; programs: an unconditional counter (scalar or with a constant label) and a gauge set from the line; one reload, 2..3 (thorough 4) lines; natively replayed by rewriting the same Unlock call sites to call the harness hook"),
@@ -94,7 +97,6 @@ CHECKS.update({
 NOT_APPLICABLE = {
  "C03": "whole compiler front end on arbitrary bytes: channel-driven lexer, goyacc tables, HM unification over a pointer graph, regexp/syntax - symbolic bytes fork at every character class and reach stdlib parsers that cannot be encoded (DESIGN.md 4 C03)",
  "C17": "behaviour lives in kernel pipe/socket semantics and real goroutine interleavings; a faithful stub would re-implement net (DESIGN.md 4 C17)",
- "C18": "filepath.Glob/os.Stat/regexp over a real directory tree polled by goroutines; the only pure kernel is a map lookup under a mutex (DESIGN.md 4 C18)",
  "C19": "whole-program start-up/shutdown across five packages under arbitrary scheduling (DESIGN.md 4 C19)",
  "C23": "quantifies only over program structure; no value dimension for a solver - degenerates to enumeration (DESIGN.md 4 C23)",
  "C24": "quantifies only over program structure; no value dimension for a solver - degenerates to enumeration (DESIGN.md 4 C24)",
